@@ -6,6 +6,7 @@
    regenerates from the Go source into Generated.v).  Specification:
    OptionsSpec.v.  [orun rk c h] runs history h of public setter calls on a
    receiver of kind rk (Stack / Condition) whose configuration is c. *)
+From Stackage Require Import Guard GeneratedIR GuardProps.
 From Stackage Require Import Base Generated StackImpl OptionsTypes OptionsSpec LogLevels Options OptionsProofs.
 From Stackage Require OptionsSpecCorr OptionsCorr OptionsCorrProofs.
 Open Scope Z_scope.
@@ -270,6 +271,25 @@ Print Assumptions c18_remarks.
 (* a fresh AND stack and a fresh Condition meet the hypotheses, and the
    relation R holds between a fresh configuration and the fresh
    specification state *)
+
+(* "... and doing so never alters ... the content", on the code as it is now:
+   over the statement IR regenerated from /repo, NO exported method other than
+   the content mutators (Push Pop Insert Remove Replace Swap Reverse Reset
+   Defrag Reveal Transfer Marshal Free Init SetKeyword SetOperator
+   SetExpression) - so no option switch and no setter of any other setting -
+   contains, on any path and for any arguments, a store into a slice header,
+   an element slot, a part of a Condition or a handle, of the receiver or of
+   any nested object. *)
+Theorem c18_only_content_mutators_store_content :
+  forall e, In e ir_entries -> is_inst_class e = true -> named content_mutators e = false ->
+            entry_ok ir_table bad_content env_init e.
+Proof. apply content_untouched_static. vm_compute. reflexivity. Qed.
+Print Assumptions c18_only_content_mutators_store_content.
+
+Theorem c18_option_setters_are_covered : option_setters_covered = true.
+Proof. vm_compute. reflexivity. Qed.
+Print Assumptions c18_option_setters_are_covered.
+
 Example c18_hypotheses_satisfiable :
   owf (onew c_and) /\ owf (onew c_cond) /\ enc_inv (o_enc (onew c_list)) /\ all_pairs (o_enc (onew c_list)) /\
   R RStack (onew c_list) (sinit RStack 4) /\ R RCond (onew c_cond) (sinit RCond 5).
